@@ -83,6 +83,13 @@ def replay_behaviour(hist, geom, jax, jnp):
                 d = diff(after, objs[st["y"]])
                 if d:
                     return bad("copy: " + d)
+            elif op == "Rebuild":
+                m = objs[x]
+                objs[st["y"]] = geom.MultiImage({tuple(t): m[tuple(srct)] for t, srct in zip(after["order"], st["src"])}, m.D, m.is_torus)
+                d = diff(after, objs[st["y"]])
+                if d:
+                    return bad("rebuild: " + d)
+                continue                      # `after` is the new object's state; the source is untouched
             elif op == "RoundTrip":
                 m = objs[x]
                 if st["how"] == "jit":
